@@ -92,8 +92,11 @@ def snap_market(m, U):
     bb, bs = m.buy_order_book.get_best_order(), m.sell_order_book.get_best_order()
     # the order in which a matching round would pop the queues (heappop on COPIES; the book is not touched)
     qb, qs = list(m.buy_order_book.priority_queue), list(m.sell_order_book.priority_queue)
-    ord_b = [heapq.heappop(qb).order_id for _ in range(len(qb))]
-    ord_s = [heapq.heappop(qs).order_id for _ in range(len(qs))]
+    try:
+        ord_b = [heapq.heappop(qb).order_id for _ in range(len(qb))]
+        ord_s = [heapq.heappop(qs).order_id for _ in range(len(qs))]
+    except Exception:  # noqa: BLE001 - comparing two resting orders raised: reported as a wrong queue order (C02)
+        ord_b, ord_s = [-2], [-2]
     vw = m.get_vwap()
     num, den = sum(m.get_executed_total_prices()), sum(m.get_executed_volumes())
     vw_ok = (math.isnan(vw) if den == 0 else vw == num / den)
